@@ -115,6 +115,21 @@ def has_count_join_below_all(s):
     return False
 
 
+def in_cycle(s, name):
+    """`name` can reach itself along the definition's transitions"""
+    succ = {t["name"]: set(d for tr in t["next"] for d in tr["do"]) for t in s["def"]["tasks"]}
+    todo, seen = list(succ.get(name, ())), set()
+    while todo:
+        n = todo.pop()
+        if n == name:
+            return True
+        if n in seen:
+            continue
+        seen.add(n)
+        todo.extend(succ.get(n, ()))
+    return False
+
+
 def last_occurrence(st):
     return set(st["tasks"].values())
 
@@ -713,6 +728,26 @@ def mon_C01(s):
                     key = "%s__t%s" % (o["id"], tid.rsplit("__t", 1)[1])
                     if rec["status"] not in TERMINAL or not rec["next"].get(key):
                         out.append(V("task %s offered through an unsatisfied transition from %s" % (o["id"], rec["id"]), i))
+    # once per justification, where it can be counted without a reference run: a task without join
+    # that several transitions lead to and that lies on no cycle gets a route of its own per
+    # traversal, so in a finished, never rerun workflow it has executed once per transition into it
+    # that was decided true
+    last = s["replies"][-1].get("state") if s["replies"] else None
+    if last and last["status"] == "succeeded" and not had_rerun(s, len(s["ops"]) - 1) and not last["staged"]:
+        for name, t in td.items():
+            if t.get("join") is not None or t.get("retry") is not None or name in CMDS or in_cycle(s, name):
+                continue
+            if any("retry" in tr["do"] for tr in t["next"]):
+                continue
+            inbound = sum(1 for x in s["def"]["tasks"] for tr in x["next"] for d in set(tr["do"]) if d == name)
+            if inbound < 2:
+                continue
+            trues = sum(1 for rec in last["sequence"] for k, v in rec["next"].items()
+                        if v is True and k.rsplit("__t", 1)[0] == name)
+            execs = sum(1 for rec in last["sequence"] if rec["id"] == name)
+            if trues != execs:
+                out.append(V("task %s executed %d times, %d transitions into it were decided true" % (name, execs, trues),
+                             len(s["ops"]) - 1))
     # decisions agree with an independent evaluation of the condition on what the predecessor saw
     for i, (op, r) in enumerate(zip(s["ops"], s["replies"])):
         st = r.get("state")
@@ -858,6 +893,26 @@ def mon_C06(s):
                     out.append(V("task %s is rendered with a context that is not the overlay of its inbound snapshots in arrival order" % o["id"], i,
                                  "D7" if False else None))
                 t = td.get(o["id"])
+                # the entry lists, for every predecessor it names, the snapshot that predecessor
+                # published on the transition into this task ...
+                for pk, pidx in sx[0]["prev"].items():
+                    key = pk.rsplit("__t", 1)[1]
+                    if pidx < len(pre["sequence"]):
+                        cidx = (pre["sequence"][pidx].get("ctxs_out") or {}).get("%s__t%s" % (o["id"], key))
+                        if cidx is not None and cidx not in sx[0]["ctxs_in"]:
+                            out.append(V("task %s is offered without the variables its predecessor %s published on the way" % (
+                                o["id"], pk), i))
+                # ... and a join names as many distinct predecessor tasks as its barrier requires
+                if t and t.get("join") is not None and not has_cycle(s) and not has_count_join_below_all(s):
+                    srcs = inbound_sources(s, o["id"])
+                    need = len(srcs) if t["join"] == "all" else min(t["join"], len(srcs))
+                    have = set(pk.rsplit("__t", 1)[0] for pk in sx[0]["prev"])
+                    if len(have) < need:
+                        # D27: after a rerun upstream of a join that had already been started, the
+                        # join is staged afresh with the rerun branch alone
+                        d27 = had_rerun(s, i) and any(rec["id"] == o["id"] for rec in pre["sequence"])
+                        out.append(V("join %s is offered although its staged entry names only %d of the %d predecessors its barrier needs (their publishes are lost)" % (
+                            o["id"], len(have), need), i, "D27" if d27 else None))
                 if t and t.get("with") is None:
                     for a in o["actions"]:
                         for name, e in t["input"]:
@@ -887,6 +942,28 @@ def mon_C06(s):
                         if got != names:
                             out.append(V("transition %s -> %s appended a snapshot with variables %s, it publishes %s" % (
                                 op["task"], dst, sorted(got), sorted(names)), i))
+                        # every published value equals an independent evaluation of its expression on
+                        # what the task saw, overlaid with the entries published before it in the
+                        # same block (only where that evaluation is unambiguous)
+                        if t.get("with") is None and op.get("item") is None and op["status"] in ("succeeded", "failed") \
+                                and rec["status"] == op["status"]:
+                            try:
+                                roll = {}
+                                for ci in rec["ctxs_in"]:
+                                    roll = _merge(roll, json.loads(json.dumps(st["contexts"][ci])))
+                            except Exception:
+                                roll = None
+                            if roll is not None:
+                                for n, e in tr["publish"]:
+                                    if n not in st["contexts"][cidx]:
+                                        break
+                                    want = refeval(e, {"ctx": roll, "status": rec["status"], "result": op.get("result")})
+                                    got_v = st["contexts"][cidx][n]
+                                    if want is not UNKNOWN and json.dumps(want, sort_keys=True) != json.dumps(got_v, sort_keys=True):
+                                        out.append(V("transition %s -> %s publishes %s: the snapshot holds %r, the expression evaluates to %r on what the task saw" % (
+                                            op["task"], dst, n, got_v, want), i))
+                                        break
+                                    roll[n] = json.loads(json.dumps(got_v))
                         for n, e in tr["publish"]:
                             if "lit" in e and n in st["contexts"][cidx] and n not in ("d",):
                                 want = render.undict(e["lit"])
